@@ -782,6 +782,8 @@ class Container:
         if not isinstance(source_container, Container):
             raise TypeError("Invalid source type.")
         quantity_to_transfer, unit = Unit.parse_quantity(quantity)
+        if quantity_to_transfer < 0:
+            raise ValueError("Quantity to transfer must not be negative.")
 
         if unit == 'L':
             volume_to_transfer = Unit.convert_to_storage(quantity_to_transfer, 'L')
